@@ -59,7 +59,9 @@ class _CanonIf(ast.NodeTransformer):
     """Canonical orientation of two-armed conditionals: `if not c: A else: B` is analysed as `if c: B else: A`
     (also when B is an elif chain: `else: if ..` and `elif ..` are the same tree); `if c: pass else: B` as `if not c: B`
     (with `not (a in b)` written `a not in b`); a guard `if a or b: ...; continue|break|return|raise` as the two guards
-    `if a: ...` `if b: ...` - so that rules do not depend on which of these spellings a programmer chose."""
+    `if a: ...` `if b: ...`; `not a in b` as `a not in b` (likewise ==, is); `'lit' == x` as `x == 'lit'`; an else-branch
+    holding only `pass` is dropped; statements that only write to the debug logger are left out - so that rules do not
+    depend on which of these spellings a programmer chose, nor on diagnostics."""
 
     _NEG = {ast.In: ast.NotIn, ast.NotIn: ast.In, ast.Eq: ast.NotEq, ast.NotEq: ast.Eq, ast.Is: ast.IsNot,
             ast.IsNot: ast.Is}
@@ -72,10 +74,72 @@ class _CanonIf(ast.NodeTransformer):
                                                  comparators=test.comparators), test)
         return ast.copy_location(ast.UnaryOp(op=ast.Not(), operand=test), test)
 
+    def visit_UnaryOp(self, node):
+        # `not a in b` == `a not in b`, `not a == b` == `a != b`, `not a is b` == `a is not b`
+        self.generic_visit(node)
+        if isinstance(node.op, ast.Not) and isinstance(node.operand, ast.Compare) and len(node.operand.ops) == 1 and \
+                type(node.operand.ops[0]) in self._NEG:
+            return self._negate(node.operand)
+        return node
+
+    def visit_Compare(self, node):
+        # a literal compared for (in)equality / identity stands on the right: `'iso' == parent` == `parent == 'iso'`
+        self.generic_visit(node)
+        if len(node.ops) == 1 and isinstance(node.ops[0], (ast.Eq, ast.NotEq, ast.Is, ast.IsNot)) and \
+                isinstance(node.left, ast.Constant) and not isinstance(node.comparators[0], ast.Constant):
+            node.left, node.comparators[0] = node.comparators[0], node.left
+        return node
+
+    @staticmethod
+    def _is_diagnostic(st):
+        # `debug.logger & debug.flagX and debug.logger(...)` / `debug.logger(...)` as a statement
+        if not isinstance(st, ast.Expr):
+            return False
+        v = st.value
+        if isinstance(v, ast.BoolOp) and isinstance(v.op, ast.And) and v.values:
+            first, last = v.values[0], v.values[-1]
+            return ast.unparse(first).startswith('debug.logger &') and isinstance(last, ast.Call) and \
+                ast.unparse(last.func) == 'debug.logger'
+        return isinstance(v, ast.Call) and ast.unparse(v.func) == 'debug.logger'
+
+    def _strip(self, body, keep_nonempty=True):
+        out = [s for s in body if not self._is_diagnostic(s)]
+        if not out and body and keep_nonempty:
+            return [ast.copy_location(ast.Pass(), body[0])]
+        return out
+
+    def generic_visit(self, node):
+        node = super(_CanonIf, self).generic_visit(node)
+        # diagnostics are not part of any property: statements that only write to the debug logger are left out of
+        # the model (a block that held nothing else becomes `pass`)
+        for field in ('body', 'orelse', 'finalbody'):
+            seq = getattr(node, field, None)
+            if isinstance(seq, list) and seq and all(isinstance(x, ast.stmt) for x in seq):
+                setattr(node, field, self._strip(seq, keep_nonempty=(field == 'body')))
+        return node
+
+    def visit_For(self, node):
+        # `for x in list(E)` / `tuple(E)` visits the same elements in the same order as `for x in E`; the loop is
+        # modelled over E and marked as iterating a snapshot (rules about resizing E inside the loop consult the mark)
+        self.generic_visit(node)
+        it = node.iter
+        if isinstance(it, ast.Call) and isinstance(it.func, ast.Name) and it.func.id in ('list', 'tuple') and \
+                len(it.args) == 1 and not it.keywords and not isinstance(it.args[0], ast.Starred):
+            node.iter = it.args[0]
+            node._iter_copied = it.func.id
+        return node
+
     def visit_If(self, node):
         self.generic_visit(node)
         if node.orelse and isinstance(node.test, ast.UnaryOp) and isinstance(node.test.op, ast.Not):
             node.test, node.body, node.orelse = node.test.operand, node.orelse, node.body
+        # an else-branch that does nothing is no else-branch
+        if node.orelse and all(isinstance(s, ast.Pass) for s in node.orelse):
+            node.orelse = []
+        # two-armed test on a negative comparison: `if a != b: A else: B`  ==  `if a == b: B else: A`
+        if node.orelse and not all(isinstance(s, ast.Pass) for s in node.body) and isinstance(node.test, ast.Compare) and \
+                len(node.test.ops) == 1 and isinstance(node.test.ops[0], (ast.NotEq, ast.NotIn, ast.IsNot)):
+            node.test, node.body, node.orelse = self._negate(node.test), node.orelse, node.body
         # `if c: pass else: B`  ==  `if not c: B`
         if node.orelse and all(isinstance(s, ast.Pass) for s in node.body):
             node.test, node.body, node.orelse = self._negate(node.test), node.orelse, []
@@ -93,6 +157,9 @@ class _CanonIf(ast.NodeTransformer):
         self.generic_visit(node)
         if isinstance(node.test, ast.UnaryOp) and isinstance(node.test.op, ast.Not):
             node.test, node.body, node.orelse = node.test.operand, node.orelse, node.body
+        if isinstance(node.test, ast.Compare) and len(node.test.ops) == 1 and \
+                isinstance(node.test.ops[0], (ast.NotEq, ast.NotIn, ast.IsNot)):
+            node.test, node.body, node.orelse = self._negate(node.test), node.orelse, node.body
         return node
 
 
